@@ -82,7 +82,7 @@ impl Axecutor {
     fn instr_retnq(&mut self, i: Instruction) -> Result<(), AxError> {
         debug_assert_eq!(i.code(), Retnq);
 
-        let rsp = self.reg_read_64(RSP)? + 8;
+        let rsp = self.reg_read_64(RSP)?.wrapping_add(8);
         if rsp == self.stack_top {
             return Err(AxError::from("Cannot pop from empty stack").end_execution());
         }
